@@ -554,6 +554,7 @@ func init() {
 			"the table also pins default level, on-open commands and on-close input of the 17 shipped definitions (a shipped definition that loses one of them is reported)",
 			"levels with identical canonical prompts are one class; the device is moved between ordinary levels only through the driver (so its cached level resolves prompts that several patterns accept); levels without escalate command are entered by setting the device's mode (before Open or by a back door) and need a prompt no other class accepts",
 			"generator preconditions checked by brute force with the definition's own patterns: the device's error line and every proper prefix of a canonical prompt are not accepted as a (different) prompt by the joined pattern; otherwise the session is inconclusive",
+			"the relation (level A's canonical prompt, other level B accepting it) of every shipped definition is pinned (= Appendix A 'also accepted by' plus the pairs inside classes of identical prompts); any change is reported. The overlaps themselves are a limitation of the definitions, not judged: a fresh session (empty cached level) opened on a device already in such a level takes it for the default desired level (observed and recorded per pinned overlap, see fresh_session_on_overlapping_level_witnesses)",
 			"generated variants define only non-empty sections; a section that is present but empty is outside the checked merge semantics",
 			"a timeout counts only if every generated byte had been delivered and the load canary is healthy",
 		},
@@ -563,5 +564,17 @@ func init() {
 		Workers:     func(string) int { return 8 },
 		Parallel:    func(string) int { return 4 },
 		CaseTimeout: 300 * time.Second,
+		// the witnesses of the overlap observations go into the evidence (round 0 only)
+		Post: func(_ string, agg *mon.Agg) {
+			w := map[string]interface{}{}
+			for id, r := range agg.Results {
+				if strings.HasPrefix(id, "c17/overlap/") && strings.HasSuffix(id, "#00") && r.Sample != nil {
+					w[id] = r.Sample
+				}
+			}
+			if len(w) > 0 {
+				agg.Extra["fresh_session_on_overlapping_level_witnesses"] = w
+			}
+		},
 	})
 }
